@@ -337,15 +337,20 @@ NAME_POOLS = [["p0", "p1", "p2", "p3"], ["a", "b", "c", "d"], ["text", "n", "loc
 
 
 def gen_sig(rng, name="f", n=None, default_vars=("y", "loc", "p0", "a")):
-    n = rng.randint(0, 4) if n is None else n
-    names = list(rng.choice(NAME_POOLS))[:n]
-    if rng.random() < 0.3:
+    big = False
+    if n is None:
+        # mostly 0-4 parameters; now and then 11-13, so that calls have two-digit positional keys
+        # (`$10` sorts before `$2` as a string)
+        big = rng.random() < 0.05
+        n = rng.randint(11, 13) if big else rng.randint(0, 4)
+    names = [f"q{i}" for i in range(n)] if n > 4 else list(rng.choice(NAME_POOLS))[:n]
+    if rng.random() < 0.3 and not big:
         rng.shuffle(names)
     params = []
     for nm in names:
         if rng.random() < 0.5:
             # defaults of every value type; some mention a variable (evaluated in the EMPTY context)
-            params.append([nm, rand_expr(rng, list(default_vars), 2, 0.15)])
+            params.append([nm, rand_expr(rng, list(default_vars), 1 if big else 2, 0.15)])
         else:
             params.append([nm, None])
     rets = []
@@ -363,7 +368,7 @@ def gen_ev(rng, sig):
         items.append(["activated", True])
     r = rng.random()
     if r < 0.55:
-        k = rng.randint(0, n)
+        k = rng.randint(n - 2, n) if n >= 11 else rng.randint(0, n)
     elif r < 0.8:
         k = rng.randint(n, 2 * n + 2)
     else:
@@ -409,7 +414,7 @@ def gen_args(rng, sig, caller_vars, kind):
     if kind == "surplus":
         k = rng.randint(n + 1, 2 * n + 2)
         return [["pos", ex()] for _ in range(k)]
-    k = rng.randint(0, n)
+    k = rng.randint(11, n) if n >= 11 and rng.random() < 0.7 else rng.randint(0, n)
     args = [["pos", ex()] for _ in range(k)]
     rest = names[k:]
     named = [nm for nm in rest if rng.random() < 0.5]
